@@ -191,6 +191,10 @@ public:
   void setOnError(ErrorCallback cb) { _onError = std::move(cb); }
   void setOnStateChange(StateCallback cb) { _onStateChange = std::move(cb); }
 
+  /// \brief Largest frame payload / reassembled message accepted from the server
+  /// (default 16 MiB, like WebSocketServer::setMaxFrameSize). Call before connect().
+  void setMaxMessageSize(std::size_t maxBytes) { _maxMessageSize.store(maxBytes); }
+
   // ── Connect / Disconnect ───────────────────────────────────────────────
 
   /// \brief Connect to a WebSocket server. Blocks until the handshake completes
@@ -556,6 +560,7 @@ private:
     }
     _upgradeComplete.store(false);
     _closeEchoed.store(false); // re-arm the one-shot CLOSE echo for this connection
+    _inputFailed.store(false);
     {
       std::lock_guard<std::mutex> lock(_sendMutex);
       _closeSent = false; // a fresh connection may send data again
@@ -705,6 +710,12 @@ private:
     // Move-parse-callback pattern: buffer ops under lock, callbacks outside.
     // Same pattern as server's onUpgradedData to avoid deadlock.
 
+    // A connection failed by failConnection() reads nothing more.
+    if (_inputFailed.load())
+    {
+      return;
+    }
+
     // Step 1: append data and move buffer out under lock
     std::vector<std::uint8_t> localBuffer;
     {
@@ -811,6 +822,21 @@ private:
     {
       core::BufferView view(localBuffer.data() + offset,
                             localBuffer.size() - offset);
+      // A header that can never complete (control frame violating RFC 6455 §5.5)
+      // or that declares more than the message limit must not be waited for:
+      // parse() would report "incomplete" forever and _buffer would grow without bound.
+      const auto hs = WebSocketFrame::checkHeader(view, _maxMessageSize.load());
+      if (hs == WebSocketFrame::HeaderStatus::ProtocolError)
+      {
+        failConnection(1002, "Protocol error", "Received malformed control frame");
+        return; // the rest of the stream cannot be framed
+      }
+      if (hs == WebSocketFrame::HeaderStatus::TooBig)
+      {
+        failConnection(1009, "Message Too Big", "Frame exceeded the message size limit");
+        return;
+      }
+
       std::size_t consumed = 0;
       auto frame = WebSocketFrame::parse(view, consumed);
       if (!frame) break;
@@ -828,6 +854,38 @@ private:
         localBuffer.begin() + offset, localBuffer.end());
       remainder.insert(remainder.end(), _buffer.begin(), _buffer.end());
       _buffer = std::move(remainder);
+    }
+  }
+
+  /// \brief Fail the WebSocket connection (RFC 6455 §7.1.7) from the I/O thread:
+  /// stop reading, send one CLOSE frame, report. The transport is left to the
+  /// server's close (or the owner's close()/destructor), as after an inbound CLOSE.
+  void failConnection(std::uint16_t code, const std::string& reason, const std::string& error)
+  {
+    _inputFailed.store(true);
+    {
+      std::lock_guard<std::mutex> lock(_dataMutex);
+      _buffer.clear();
+      _fragmentBuffer.clear();
+      _fragmentOpcode = WsOpcode::CONTINUATION;
+    }
+    bool alreadySent = false;
+    {
+      std::lock_guard<std::mutex> lock(_sendMutex);
+      alreadySent = _closeSent;
+    }
+    if (!alreadySent)
+    {
+      sendClose(code, reason);
+    }
+    setState(WebSocketState::CLOSED);
+    if (_onError)
+    {
+      _onError(error);
+    }
+    if (_onClose)
+    {
+      _onClose(code, reason);
     }
   }
 
@@ -893,6 +951,7 @@ private:
     WsOpcode opcode = WsOpcode::CONTINUATION;
     std::vector<std::uint8_t> payload;
     bool deliver = false;
+    bool tooLarge = false;
     {
       std::lock_guard<std::mutex> lock(_dataMutex);
       if (isStart)
@@ -906,7 +965,15 @@ private:
                                frame.payload.begin(), frame.payload.end());
       }
 
-      if (frame.fin)
+      if (_fragmentBuffer.size() > _maxMessageSize.load())
+      {
+        // The message is refused: drop what was collected, or further fragments
+        // would keep growing the buffer beyond the limit.
+        tooLarge = true;
+        std::vector<std::uint8_t>().swap(_fragmentBuffer);
+        _fragmentOpcode = WsOpcode::CONTINUATION;
+      }
+      else if (frame.fin)
       {
         opcode = _fragmentOpcode;
         payload = std::move(_fragmentBuffer);
@@ -914,6 +981,16 @@ private:
         _fragmentOpcode = WsOpcode::CONTINUATION;
         deliver = true;
       }
+    }
+
+    if (tooLarge)
+    {
+      sendClose(1009, "Message Too Big");
+      if (_onError)
+      {
+        _onError("Message exceeded the message size limit");
+      }
+      return;
     }
 
     if (deliver)
@@ -1226,6 +1303,12 @@ private:
   // CLOSE is echoed, re-armed in doConnect() per connection. Replaces the dead
   // _state==CLOSING guard (CLOSING is never stored — it is a reserved state).
   std::atomic<bool> _closeEchoed{false};
+
+  // Receive-side limits: largest accepted frame payload / reassembled message, and
+  // the flag set by failConnection() that makes handleData() drop further input.
+  // _inputFailed is re-armed per connection in doConnect().
+  std::atomic<std::size_t> _maxMessageSize{16 * 1024 * 1024};
+  std::atomic<bool> _inputFailed{false};
 
   // Orders DATA/PING frames against the CLOSE frame (see the Send section).
   std::mutex _sendMutex;
